@@ -90,6 +90,8 @@ def build(run):
     run.scan('set_timer_callers', callers == ['edzed/fsm.py:FSM._restore_state', 'edzed/fsm.py:FSM._start_timer'], f'{callers}')
     run.trust("asyncio loop.call_later / TimerHandle: the callback runs once, not before `when`, never after cancel(); "
               "'exactly once, on time' is this contract plus the timer invariant (no independent timing claim)")
+    from specs import fsm_tables
+    fsm_tables.verify_tables(run)          # TIMERS -> timed events and default durations of the timed states
     from specs.c03 import FSM_GRID_BOUND
     run.bounded_native('fsm_definitions_through_the_real_class_machinery', 'fsm_tables_grid.py', FSM_GRID_BOUND)
     run.unclaim("FSM.__init__ keyword parsing (t_STATE durations of an instance, InputExp durations): prefix matching over keyword names; "
